@@ -164,6 +164,32 @@ func run(d descriptor) *result {
 					addGen("fallback", g)
 				}
 			}
+			// ... and many more, created in tight loops (what a program does whose
+			// default generators fall back: every instance gets one of its own);
+			// the first id of each must be new
+			per := 50 + 50*(o.Batch%8)
+			short := make([][]id.Id, n)
+			for i := range short {
+				wg.Add(1)
+				go func(i int) {
+					defer wg.Done()
+					ids := make([]id.Id, per)
+					for k := range ids {
+						ids[k] = id.NewFallbackGenerator().New()
+					}
+					short[i] = ids
+				}(i)
+			}
+			wg.Wait()
+			for i, ids := range short {
+				for k, x := range ids {
+					lineages++
+					gs := &genState{kind: "fallback", own: map[string]struct{}{}, lineage: lineages}
+					if !record(oi, gs, fmt.Sprintf("fallback generator %d of goroutine %d", k, i), x, fmt.Sprintf("%d goroutines x %d fallback generators created at the same time, first id of each", n, per)) {
+						return r
+					}
+				}
+			}
 		case "draw":
 			gs := pool[o.Gen%len(pool)]
 			gor := 1 + o.Gor%16
